@@ -243,6 +243,10 @@ def jobs(tier, seed=0):
 _M = ("M",)
 
 
+def _MR(origin, size):
+    return ("MR", origin, size)
+
+
 def _S(origin, size, cached=1, linker=0):
     return ("S", origin, size, cached, linker)
 
@@ -262,6 +266,12 @@ _GLUE_B = [
      dict(interconnect="crossbar", register=False)),
     ([_M, _I(0x80000000, 0x20000), _R(0, 0x20000, 1, 1), _S(0, 0x1800), _S(None, 0x600, 0), _S(0x80010000, 0x3000, 0),
       _M, _S(None, 0x800)], dict(timeout=16, register=False)),
+]
+_GLUE_B += [
+    # masters restricted by add_master(region=…): to one slave's region, to a non-power-of-two slave's rounding gap, to a
+    # window spanning several slaves; one unrestricted master
+    ([_MR(0x4000, 0x1000), _MR(0x3000, 0x1000), _S(0, 0x3000), _S(None, 0x1000), _MR(0, 0x8000), _M, _S(0x8000, 0x1800)],
+     dict(timeout=8)),
 ]
 _GLUE_B_THOROUGH = [
     ([_M, _S(0x10000000, 0x5000), _S(0x10008000, 0x2400), _S(None, 0x3000), _S(None, 0x3000)],
@@ -516,9 +526,17 @@ def _glue_scripts(rng, tier):
         ([_M, _M, _S(0, 0x1000, 1, 1), _S(0, 0x1000)], dict(timeout=8)),                 # linker slave region (R10 off)
         ([_M, _S(0x10000000, 0x3000)], dict(timeout=8)),
         ([_M, _S(0, 0x3000), _S(0x3000, 0x1000)], dict(timeout=8)),
+        # remapped masters (add_master(region=…))
+        ([_MR(0x10000000, 0x1000), _S(0x10000000, 0x1000), _S(0, 0x2000)], dict(timeout=8)),
+        ([_MR(0x2000, 0x800), _M, _S(0, 0x3000), _S(None, 0x1000)], dict(interconnect="crossbar", register=False)),
+        ([_MR(0, 0x10000), _MR(0x4000, 0x4000), _S(0, 0x3000), _S(None, 0x1000), _S(None, 0x1800)], dict(interconnect="crossbar")),
+        ([_MR(0x80000000, 0x100), _S(0x80000000, 0x100)], dict(timeout=8)),       # 1x1, non-zero origin: decoder
+        ([_MR(0, 0x1000), _S(0, 0x100000000)], dict(timeout=8)),                  # 1x1, whole space: point to point
     ]
     for _ in range(14 if tier == "quick" else 150):
-        script = [_M] * rng.randint(1, 3)
+        script = [_M if rng.random() < 0.75 else _MR(rng.randrange(0, 16) * 0x1000, rng.choice((0x1000, 0x400, 0x4000)))
+                  for _k in range(rng.randint(1, 3))]
+        script = [op if op[0] == "M" or op[1] % op[2] == 0 else _MR(op[1] // op[2] * op[2], op[2]) for op in script]
         placed = []
         has_io = rng.random() < 0.4
         if has_io:
@@ -614,8 +632,14 @@ def _glue_one(ctx, script, kw, model_answer):
     inst = gb.fabric()
     inst.env_factory = _SweepEnv
     cycles = 3 * len(inst.adr_pool_extra)
+    # open finding C06-p2p-partial-region-origin0 (one master, one slave at origin 0 smaller than the address space is
+    # wired point to point): the model reproduces the code there, the property monitor is armed by probes() only
+    known = (gb.n == 1 and gb.m == 1 and gb.slave_regions[0][0] == 0
+             and wblib._pow2(gb.slave_regions[0][1]) < (1 << gb.args["address_width"]))
+    if known:
+        ctx.cov.count("glue_in_known_finding_region")
     try:
-        ds = cosim(inst, ctx.lean, ctx.cov, ctx.rng, cycles, runs=1)
+        ds = cosim(inst, ctx.lean, ctx.cov, ctx.rng, cycles, runs=1, with_monitor=not known)
     except LeanError as e:
         # the model refuses the script (already reported above as an outcome difference): the real bus is still
         # swept with the property monitor armed
@@ -656,6 +680,46 @@ class _Args:
     def __init__(self, script, kw):
         self.script = [tuple(op) for op in script]
         self.args = dict(dict(interconnect="shared", register=True, timeout=8, data_width=32, address_width=32), **kw)
+
+
+def _remap_cases(ctx):
+    """`SoCBusHandler.add_remapper` (what `add_master(region=…)` calls; real netlist) against the model's `remapAdr`
+    and, for aligned power-of-two regions, against the specification `origin + offset modulo size`."""
+    from litex.soc.integration import soc as S
+    from litex.soc.interconnect import wishbone
+    from netlist import Netlist
+    rng = ctx.rng
+    lines, got, dis = [], [], []
+    for k in range(12 if ctx.tier == "quick" else 80):
+        dw = rng.choice((32, 32, 64))
+        sh = (dw // 8).bit_length() - 1
+        bus = S.SoCBusHandler(standard="wishbone", data_width=dw, address_width=32)
+        pow2 = rng.random() < 0.7
+        size = (1 << rng.randint(sh + 1, 28)) if pow2 else rng.choice((0x3000, 0x1800, 0x5000, 0x600))
+        p2 = 1 << (size - 1).bit_length()
+        origin = rng.randrange(0, (1 << 32) // p2) * p2
+        mst = wishbone.Interface(data_width=dw, address_width=32)
+        adapted = bus.add_remapper("m", mst, origin, size)
+        nl = Netlist(bus)
+        for a in {0, 1, (size >> sh) - 1, size >> sh, (1 << (32 - sh)) - 1, rng.getrandbits(32 - sh), rng.getrandbits(32 - sh)}:
+            nl.set(mst.adr, a)
+            nl.settle()
+            v = nl.getu(adapted.adr)
+            lines.append("remapadr %d %d %d 32 %d" % (origin, size, dw, a))
+            got.append((v, origin, size, dw, a))
+            if pow2 and not dis:
+                spec = (origin >> sh) + (a % (size >> sh))
+                if v != spec:
+                    dis.append({"instance": "SoCBusHandler.add_remapper", "kind": "monitor:remapped master leaves its region",
+                                "case": [origin, size, dw, a], "impl": v, "spec": spec})
+    res = ctx.lean.call_batch(lines)
+    for r, g in zip(res, got):
+        if r.strip() != str(g[0]):
+            dis.append({"instance": "SoCBusHandler.add_remapper", "kind": "correspondence", "case": list(g[1:]), "impl": g[0], "model": r.strip()})
+            if len(dis) >= 3:
+                break
+    ctx.cov.add_cases("SoCBusHandler.add_remapper vs remapAdr", len(lines), len(lines), exhaustive=False)
+    return dis
 
 
 def _rr_cases(ctx):
@@ -809,8 +873,9 @@ def correspond(ctx):
     dis += _guard("migen RoundRobin", lambda: _rr_cases(ctx))
     dis += _guard("SoCRegion.decoder", lambda: _region_decoder_cases(ctx))
     dis += _guard("SoCBusHandler.do_finalize topology", lambda: _topology_cases(ctx))
-    dis += _guard("SoCBusHandler.check_regions_overlap", lambda: _overlap_cases(ctx))
     dis += _guard("SoCBusHandler build scripts", lambda: _glue_cases(ctx))
+    dis += _guard("SoCBusHandler.check_regions_overlap", lambda: _overlap_cases(ctx))
+    dis += _guard("SoCBusHandler.add_remapper", lambda: _remap_cases(ctx))
     dis += _guard("selftest", lambda: _self_test(ctx))
     ctx.log("corpus, RoundRobin table, SoCRegion.decoder cases, self-test done; %d fabric jobs" % len(ctx.jobs))
     limit = 600 if ctx.tier == "quick" else 3000
